@@ -387,19 +387,31 @@ def run_history(h, p):
     return out, info
 
 
-def run_inconsistent(p):
+INCONSISTENT = {
+    # pairs of bodies of ONE function name with different equation sets
+    "square-vs-cube": (lambda a, b: a * a, lambda a, b: a * a * a),
+    # ... whose equation texts differ only in where digit strings split into coefficient / wire index
+    # ("1 1 1 2 * 1 2" against "111 2 * 1 2"): a digest that ignores token boundaries cannot tell them apart
+    "token-boundaries-1": (lambda a, b: (a + b) * b, lambda a, b: (b * 111) * b),
+    "token-boundaries-2": (lambda a, b: (a + b) * a, lambda a, b: (b * 111) * a),
+    "coefficient-vs-two-terms": (lambda a, b: (a * 12 + b) * b, lambda a, b: (a + b * 21) * b),
+}
+
+
+def run_inconsistent(p, which="square-vs-cube"):
     """A function whose body depends on a public Python value, called with two different values."""
     qb, rt = _Q["qb"], _Q["rt"]
     qreset()
     k = [0]
+    f0, f1 = INCONSISTENT[which]
 
     @qb.subqap("h")
-    def hfn(a):
-        return a * a if k[0] == 0 else a * a * a
-    x = rt.PrivVal(3)
-    hfn(x)
+    def hfn(a, b):
+        return f0(a, b) if k[0] == 0 else f1(a, b)
+    x, y = rt.PrivVal(3), rt.PrivVal(5)
+    hfn(x, y)
     k[0] = 1
-    hfn(x)
+    hfn(x, y)
     err, exc = prove_and_capture()
     out, info = check_common(p, err, exc)
     if not info.get("inconsistent"):
@@ -422,8 +434,8 @@ def _task(t):
             desc = "f=%s g=%s calls=%s inputs=%s args=%s" % (spec["f"], spec["g"], spec["seq"], spec["inp"], spec.get("form"))
             st["transitions"] += len(spec["seq"]) + 1
         else:
-            res, info = run_inconsistent(p)
-            desc = "inconsistent function h called twice"
+            res, info = run_inconsistent(p, spec or "square-vs-cube")
+            desc = "inconsistent function h (%s) called twice" % (spec or "square-vs-cube")
         st["traces"] += 1
         st["equations_checked"] += info.get("n_eqs", 0)
         st["glues_checked"] += len(info.get("glues", []))
@@ -484,7 +496,7 @@ def run(ctx):
     random.Random(ctx.seed).shuffle(flats)
     random.Random(ctx.seed).shuffle(hists)
     n = common.NCPU * 3
-    tasks = [("flat", flats[i::n], p) for i in range(n)] + [("hist", hists[i::n], p) for i in range(n)] + [("incons", [None], p)]
+    tasks = [("flat", flats[i::n], p) for i in range(n)] + [("hist", hists[i::n], p) for i in range(n)] + [("incons", list(INCONSISTENT), p)]
     tasks = [t for t in tasks if t[1]]
     results = common.pool_map(_task, tasks, init=_init)
     agg = {}
@@ -537,7 +549,7 @@ def replay(case):
         spec["inp"] = tuple(spec["inp"])
         res, _ = run_history(spec, p)
     else:
-        res, _ = run_inconsistent(p)
+        res, _ = run_inconsistent(p, spec if isinstance(spec, str) else "square-vs-cube")
     os.chdir("/")
     return {"case": case["kind"], "violations": [{"klass": k, "what": t} for k, t in res]}
 
